@@ -4,7 +4,7 @@ import ast
 from . import rule, info
 from ..program import AnalysisError, src, norm, ClassInfo
 from ..tables import MISS
-from ..util import (is_name, calls_in, callee_qual, deref, ancestors, evaluator_calls, stmt_of, parent,
+from ..util import (locals_from_attrs, is_name, calls_in, callee_qual, deref, ancestors, evaluator_calls, stmt_of, parent,
                     handler_outcomes, completes_normally, handler_covers, in_handler_of, raised_class, is_subclass,
                     cls_name, class_names_of_handler)
 from .common import option_usage
@@ -127,11 +127,7 @@ def parent_miss(ctx):
     ok = len(dels) == 1 and any(dels[0] in ast.walk(s) for s in t.orelse)
     ctx.ob(ok, u, 'the deletion runs only when the parent was fetched (try-else): %s' % [norm(d) for d in dels])
     roles = {}
-    for n in u.own_nodes():
-        if isinstance(n, ast.Assign):
-            b = match(n, '$op, $arg, $path = self.op, self.arg, self.path')
-            if b:
-                roles.update(b)
+    roles.update(locals_from_attrs(u, ('op', 'arg', 'path')))
     split = None
     for n in ast.walk(u.node):
         if isinstance(n, ast.If) and matches(n.test, 'self.path.startswith(S)') and len(n.body) == 2 and len(n.orelse) == 2:
